@@ -57,6 +57,7 @@ Judge(ev) ==
             ELSE IF ~OnGrid(TypeOfU(ev.u), SMulV(V(ev.a), VecOf(ev.u))) THEN "oor"
             ELSE J(ev.res.inmodel /\ ev.res.s = ev.v /\ ev.res.t = TypeOfU(ev.u)
                    /\ V(ev.res.a) = SMulV(V(ev.a), SDivV(VecOf(ev.u), VecOf(ev.v))))
+      [] ev.op = "conv0" -> J(ev.res.k = "q" /\ ev.zero /\ ev.res.s = ev.v /\ ev.res.t = TypeOfU(ev.u))
       [] ev.op = "convx" -> J(ev.res.k = "e" /\ "IncompatibleUnitsError" \in SeqRange(ev.res.mro))
       [] ev.op = "prefix" -> J(ev.name \in DOMAIN SIPrefixes /\ ev.inmodel /\ V(ev.vec) = Pow10V(SIPrefixes[ev.name]))
       [] ev.op = "nprefix" -> J(ev.n = Cardinality(DOMAIN SIPrefixes))
